@@ -50,7 +50,7 @@ INF = float("inf")
 RF = ("newton", "broyden1", "broyden2", "linearmixing")
 BCKS = ("default", "exactsolve", "cg", "bicgstab", "gmres", "broyden1")
 PLACEMENTS = ("explicit", "nnmodule", "editable", "editable_derived", "mixed", "twice", "held_twice")
-# + editable_ndfirst / editable_ndlast / nnmodule_ndfirst / nnmodule_ndlast (separate block of cases())
+# + editable_ndfirst / editable_ndlast / nnmodule_ndfirst / nnmodule_ndlast / explicit_view (separate block)
 
 
 def _methods(functional):
@@ -133,7 +133,8 @@ def cases(tier, seed):
         for method in (("newton", "broyden1") if quick else _methods(functional)):
             for bck in (("exactsolve", "bicgstab") if quick else BCKS):
                 for (n, kind) in ((2, "2n"), (8, "n")):
-                    for placement in ("editable_ndfirst", "editable_ndlast", "nnmodule_ndfirst", "nnmodule_ndlast"):
+                    for placement in ("editable_ndfirst", "editable_ndlast", "nnmodule_ndfirst", "nnmodule_ndlast",
+                                      "explicit_view"):
                         out.append({"functional": functional, "method": method, "family": fam, "dtype": "float64",
                                     "n": n, "shape": kind, "bck_method": bck, "placement": placement,
                                     "guess": "zero", "cot": "dense", "plane": 0, "seed": 0})
@@ -214,6 +215,22 @@ def _scenario(cfg, prob, leaves):
             q[cidx] = 0.5 * (q[cidx] + p[-1])
             return base(y, *q)
         params = tuple(leaves) + (leaves[cidx],)
+        diff = list(zip(names, leaves))
+
+        def pure(y, *lv):
+            return base(y, *lv)
+        return fcn, params, diff, pure
+
+    if placement == "explicit_view":
+        # two DISTINCT tensor objects sharing one storage among the explicit parameters: the square matrix leaf and
+        # its transposed view (the matrix enters as (L + V^T) / 2 with V = L^T)
+        midx = [i for i, t in enumerate(leaves) if t.dim() == 2 and t.shape[0] == t.shape[1]][0]
+
+        def fcn(y, *p):
+            q = list(p[:-1])
+            q[midx] = 0.5 * (q[midx] + p[-1].transpose(0, 1))
+            return base(y, *q)
+        params = tuple(leaves) + (leaves[midx].transpose(0, 1),)
         diff = list(zip(names, leaves))
 
         def pure(y, *lv):
